@@ -29,13 +29,14 @@ from ..engine import Engine
 from ..report import Report
 from ..resolve import Ctx
 from ..model import walk_own
+from . import common
 
 QUEUE = 'slimta.queue.Queue'
 ACQ = ('_pool_spawn', '_pool_run', '_pool_imap')
 
 
 def pool_names(e: Engine) -> Set[str]:
-    init = e.p.cls(QUEUE).methods.get('__init__')
+    init = common.merged_class(e, QUEUE).methods.get('__init__')
     out = set()
     if init is None:
         return out
@@ -66,7 +67,7 @@ def _acq_name(call: ast.Call):
 def holders(e: Engine, pools: Set[str]):
     """[(pool, method name, spawning method, call ast)]"""
     out = []
-    c = e.p.cls(QUEUE)
+    c = common.merged_class(e, QUEUE)
     for mname, m in sorted(c.methods.items()):
         for n in walk_own(m.node):
             if not (isinstance(n, ast.Call) and _acq_name(n)):
@@ -147,7 +148,7 @@ def spawn_defers(e: Engine, rep: Report, rule: str, pools: Set[str]):
             if isinstance(c, ast.Call) and isinstance(c.func, ast.Attribute) \
                     and isinstance(c.func.value, ast.Name) and \
                     c.func.value.id == 'self':
-                m = e.p.cls(QUEUE).methods.get(c.func.attr)
+                m = common.merged_class(e, QUEUE).methods.get(c.func.attr)
                 if m is None:
                     continue
                 src = ast.unparse(m.node)
